@@ -3,8 +3,8 @@
 SPECIFICATION Spec
 CONSTANTS
   Mode = "manual"
-  TPs = {1, 2}
-  Nows = {1, 2}
+  TPs = {2, 4}
+  Nows = {2, 3, 4}
   Ids = {1}
   CancelIds = {1}
   MaxSleeps = 5
